@@ -348,8 +348,8 @@ pub enum Outcome {
     Err { kind: String, errno: i32, desc: String },
     /// C facade failure whose id was kept (not consumed)
     CErrKept { id: i32 },
-    /// errorinfo result: None = NULL
-    Info(Option<(u64, String)>),
+    /// errorinfo result: (id passed, None = NULL)
+    Info(i32, Option<(u64, String)>),
     Panic(String),
     /// harness action done
     Harness(i64),
@@ -373,8 +373,8 @@ impl Outcome {
             Outcome::Bytes(_) | Outcome::CBytes { .. } => "ok:bytes".into(),
             Outcome::Err { kind, errno, .. } => format!("err:{kind}:{}", crate::sys::errname(*errno)),
             Outcome::CErrKept { .. } => "err:kept".into(),
-            Outcome::Info(Some(_)) => "info".into(),
-            Outcome::Info(None) => "info:null".into(),
+            Outcome::Info(_, Some(_)) => "info".into(),
+            Outcome::Info(_, None) => "info:null".into(),
             Outcome::Panic(_) => "panic".into(),
             Outcome::Harness(_) => "harness".into(),
         }
@@ -729,7 +729,7 @@ fn exec_c(spec: &OpSpec, rootfd: i32) -> Outcome {
                 let id = IDSLOTS[*idslot].load(Ordering::SeqCst);
                 let p = pathrs_errorinfo(id);
                 if p.is_null() {
-                    Outcome::Info(None)
+                    Outcome::Info(id, None)
                 } else {
                     let errno = (*p).saved_errno;
                     let desc = if (*p).description.is_null() {
@@ -738,7 +738,7 @@ fn exec_c(spec: &OpSpec, rootfd: i32) -> Outcome {
                         std::ffi::CStr::from_ptr((*p).description).to_string_lossy().into_owned()
                     };
                     pathrs_errorinfo_free(p);
-                    Outcome::Info(Some((errno, desc)))
+                    Outcome::Info(id, Some((errno, desc)))
                 }
             }
             Op::CBadArg { func, class } => {
